@@ -130,7 +130,18 @@ def build(tier, seed):
         return float(np.real(U[row] @ rho @ U[row].conj())) / 3 ** len(r)
 
     def ob(name, fn, func, desc, **kw):
-        return Obligation(name, "post", fn, func=func, sample=desc, timeout=kw.pop("timeout", 900), **kw)
+        def guarded():
+            try:
+                return fn()
+            except Exception as ex:  # pylint: disable=broad-except
+                import traceback
+                tb = traceback.extract_tb(ex.__traceback__)
+                if any("/pennylane/" in fr.filename for fr in tb):        # the code under test raised on a valid input
+                    where = next(fr for fr in reversed(tb) if "/pennylane/" in fr.filename)
+                    return refuted(f"the real code raised {type(ex).__name__}: {ex} at {where.filename.split('/pennylane/')[-1]}:{where.lineno}",
+                                   dict(call=name.split("/")[1]), f"{type(ex).__name__}: {ex}", "a result")
+                raise
+        return Obligation(name, "post", guarded, func=func, sample=desc, timeout=kw.pop("timeout", 900), **kw)
 
     def refuted(detail, inputs, observed, expected):
         return Outcome(REFUTED, "real-kernels+exact-polynomials", detail[:1200], witness=dict(inputs=inputs),
@@ -311,15 +322,17 @@ def build(tier, seed):
     def mom_no_empty():
         for T in range(1, 13):
             for k in range(1, T + 1):
-                with warnings.catch_warnings():
-                    warnings.simplefilter("ignore")
-                    res = CS.median_of_means(np.arange(T, dtype=float), k)
-                if not np.isfinite(res):
-                    return refuted("median_of_means returns nan: ceil(T/k)-sized batches leave the last batch(es) empty", dict(T=T, k=k, arr=list(range(T))),
-                                   float(res), "a finite median of k non-empty batch means ('split into k equal parts')")
-        return Outcome(DISCHARGED, "real-kernel", "every batch is non-empty for 1 <= k <= T <= 12")
+                res, means = capture_batches(np.eye(T), k)
+                one = CS.median_of_means(np.arange(T, dtype=float), k) if True else None
+                empty = means is None or any(np.any(np.isnan(m)) for m in means)
+                covered = [] if means is None else [i for m in means if not np.any(np.isnan(m)) for i in np.nonzero(m)[0]]
+                if empty or covered != list(range(T)) or not np.all(np.isfinite(res)) or not np.isfinite(one):
+                    return refuted("median_of_means takes the mean of an EMPTY batch (nan): ceil(T/k)-sized batches leave trailing batches empty",
+                                   dict(T=T, k=k, arr=list(range(T))), float(one), "a finite median of non-empty, consecutive, disjoint batches covering all T records")
+        return Outcome(DISCHARGED, "real-kernel", "every batch whose mean is taken is non-empty; batches consecutive, disjoint, covering; result finite (1 <= k <= T <= 12)")
     plan.add(ob("C60/classical_shadow:median_of_means/no-empty-batch[k<=T<=12]", mom_no_empty, (SFILE, "median_of_means"),
-                "for every 1 <= k <= T the k batches are non-empty and the result is finite", size_bounded=True))
+                "every batch whose mean is taken is non-empty, the batches taken are consecutive, disjoint and cover all T records, result finite, for 1 <= k <= T",
+                size_bounded=True))
     plan.fn_under_contract(SFILE, "median_of_means")
 
     # ------------------------------------------------------------------------------------------------ (4) device measurements (bounded stand-ins)
